@@ -1,0 +1,77 @@
+//! Verification hook (only compiled with `--cfg sentinel_verif`):
+//! a process-wide virtual clock that, once enabled, replaces the wall clock
+//! read by `curr_time_millis`/`curr_time_nanos` and turns the sleep helpers
+//! into clock advances. With the cfg off this file is not compiled at all.
+
+use core::sync::atomic::{AtomicBool, AtomicU64, Ordering};
+
+static ENABLED: AtomicBool = AtomicBool::new(false);
+/// nanoseconds since the unix epoch
+static NOW_NS: AtomicU64 = AtomicU64::new(0);
+static SLEEP_CALLS: AtomicU64 = AtomicU64::new(0);
+static SLEPT_NS: AtomicU64 = AtomicU64::new(0);
+static LAST_SLEEP_NS: AtomicU64 = AtomicU64::new(0);
+
+pub fn enable(now_ns: u64) {
+    NOW_NS.store(now_ns, Ordering::SeqCst);
+    ENABLED.store(true, Ordering::SeqCst);
+}
+
+pub fn disable() {
+    ENABLED.store(false, Ordering::SeqCst);
+}
+
+pub fn is_enabled() -> bool {
+    ENABLED.load(Ordering::SeqCst)
+}
+
+pub fn set_nanos(now_ns: u64) {
+    NOW_NS.store(now_ns, Ordering::SeqCst);
+}
+
+pub fn advance_nanos(delta_ns: u64) -> u64 {
+    NOW_NS.fetch_add(delta_ns, Ordering::SeqCst) + delta_ns
+}
+
+pub fn raw_nanos() -> u64 {
+    NOW_NS.load(Ordering::SeqCst)
+}
+
+pub fn now_nanos() -> Option<u64> {
+    if is_enabled() {
+        Some(NOW_NS.load(Ordering::SeqCst))
+    } else {
+        None
+    }
+}
+
+pub fn now_millis() -> Option<u64> {
+    now_nanos().map(|ns| ns / 1_000_000)
+}
+
+/// Returns true when the sleep was served by the virtual clock.
+pub fn on_sleep_ns(ns: u64) -> bool {
+    if !is_enabled() {
+        return false;
+    }
+    SLEEP_CALLS.fetch_add(1, Ordering::SeqCst);
+    SLEPT_NS.fetch_add(ns, Ordering::SeqCst);
+    LAST_SLEEP_NS.store(ns, Ordering::SeqCst);
+    NOW_NS.fetch_add(ns, Ordering::SeqCst);
+    true
+}
+
+/// (number of sleep calls, total nanoseconds slept, last sleep in ns) since the last reset
+pub fn sleep_stats() -> (u64, u64, u64) {
+    (
+        SLEEP_CALLS.load(Ordering::SeqCst),
+        SLEPT_NS.load(Ordering::SeqCst),
+        LAST_SLEEP_NS.load(Ordering::SeqCst),
+    )
+}
+
+pub fn reset_sleep_stats() {
+    SLEEP_CALLS.store(0, Ordering::SeqCst);
+    SLEPT_NS.store(0, Ordering::SeqCst);
+    LAST_SLEEP_NS.store(0, Ordering::SeqCst);
+}
